@@ -63,7 +63,9 @@ const c12AllPolicy = `path "*" { capabilities = ["create","read","update","delet
 
 func newC12World(t *testing.T, rt *rapid.T) *c12World {
 	hub := newRecHub()
-	tc := mustBoot(t, coreOpts{transactional: rapid.Bool().Draw(rt, "transactionalStorage"), cacheOff: true,
+	// half of the servers run with unsafe_cross_namespace_identity (identity groups may then have members that live in
+	// other namespaces); the group-policy application mode stays the default
+	tc := mustBoot(t, coreOpts{transactional: rapid.Bool().Draw(rt, "transactionalStorage"), cacheOff: true, crossNSIdentity: rapid.Bool().Draw(rt, "crossNamespaceIdentity"),
 		logical: map[string]logical.Factory{"recbe": hub.factory("recbe", logical.TypeLogical)}})
 	hub.physSeq = tc.rec.Seq
 	w := &c12World{t: t, tc: tc, hub: hub}
@@ -475,6 +477,110 @@ func TestVerif_C12_Confinement(t *testing.T) {
 				}
 				m.physPfx = newPfx
 				nontrivial = true
+			},
+			// A batch token carries its namespace inside its protected payload; the ".<namespace id>" suffix of the id is
+			// only a routing hint that whoever presents the token can cut off or replace. However it is presented, a
+			// batch token of namespace N authorises nothing outside N and its descendants.
+			"batch-token-resuffixed": func(rt *rapid.T) {
+				var homes []*c12NS
+				for _, n := range w.nss {
+					if n.path != "" && !n.sealed {
+						homes = append(homes, n)
+					}
+				}
+				if len(homes) == 0 {
+					rt.Skip("no namespace")
+				}
+				home := homes[fairIndex(rt, "home", len(homes))]
+				cr := tc.doCtx(w.ctx(home), &logical.Request{Operation: logical.UpdateOperation, Path: "auth/token/create", ClientToken: home.token,
+					Data: map[string]any{"type": "batch", "policies": []string{"all", "default"}, "ttl": "30m"}})
+				if !cr.ok() || cr.resp == nil || cr.resp.Auth == nil {
+					t.Fatalf("harness: batch token in %s: %v", home.path, cr)
+				}
+				tok := cr.resp.Auth.ClientToken
+				suffix := "." + home.ns.ID
+				if !strings.HasSuffix(tok, suffix) {
+					rt.Skip("batch token without namespace suffix")
+				}
+				var victims []*c12NS
+				for _, n := range w.nss {
+					if !n.sealed && !isDescendantOrSelf(n.path, home.path) {
+						victims = append(victims, n)
+					}
+				}
+				victim := victims[fairIndex(rt, "victim", len(victims))]
+				presented := strings.TrimSuffix(tok, suffix)
+				how := "suffix removed"
+				if victim.path != "" && rapid.Bool().Draw(rt, "swapSuffix") {
+					presented += "." + victim.ns.ID
+					how = "suffix of " + victim.path
+				}
+				var vm *c12Mount
+				for _, m := range w.mounts {
+					if m.ns == victim {
+						vm = m
+					}
+				}
+				if vm == nil {
+					rt.Skip("no mount in the victim namespace")
+				}
+				callsBefore := len(w.hub.handlerCalls())
+				res := tc.doCtx(w.ctx(victim), &logical.Request{Operation: logical.ReadOperation, Path: vm.path + "raw", ClientToken: presented, Data: map[string]any{"key": "k"}})
+				pol := tc.doCtx(w.ctx(victim), &logical.Request{Operation: logical.ReadOperation, Path: "sys/policy/all", ClientToken: presented})
+				served := res.ok() || pol.ok() || len(w.hub.handlerCalls()) > callsBefore
+				w.logf("batch token of %q presented with %s in %q -> %v / %v", home.path, how, victim.path, res, pol)
+				crossNS++
+				nontrivial = true
+				if served {
+					fail("resuffixed-batch-token-served-outside-its-namespace", fmt.Sprintf("a batch token issued in namespace %q, presented with its %s, was served in namespace %q (backend read: %v, sys/policy read: %v)", home.path, how, victim.path, res, pol))
+				}
+			},
+			// An identity group of an ANCESTOR namespace that carries policies and has a member entity living in a
+			// descendant namespace (possible only with unsafe_cross_namespace_identity): with the default group-policy
+			// application mode the member's token - a token of the descendant namespace - gains nothing in the ancestor.
+			"ancestor-group-member": func(rt *rapid.T) {
+				var kids []*c12NS
+				for _, n := range w.nss {
+					if n.path != "" && !n.sealed && !n.sealable {
+						kids = append(kids, n)
+					}
+				}
+				if len(kids) == 0 {
+					rt.Skip("no namespace")
+				}
+				kid := kids[fairIndex(rt, "memberNamespace", len(kids))]
+				w.nwrite++
+				er, err := tc.c.identityStore.HandleRequest(w.ctx(kid), &logical.Request{Operation: logical.UpdateOperation, Path: "entity", Data: map[string]any{"name": fmt.Sprintf("member%d", w.nwrite)}})
+				if err != nil || er == nil || er.IsError() {
+					t.Fatalf("harness: entity in %s: %v %v", kid.path, er, err)
+				}
+				entID, _ := er.Data["id"].(string)
+				gr, gerr := tc.c.identityStore.HandleRequest(tc.ctx, &logical.Request{Operation: logical.UpdateOperation, Path: "group",
+					Data: map[string]any{"name": fmt.Sprintf("platform%d", w.nwrite), "policies": []string{"all"}, "member_entity_ids": []string{entID}}})
+				if gerr != nil || gr == nil || gr.IsError() {
+					w.logf("root group with a member entity of %q refused: %v %v", kid.path, gr, gerr)
+					return
+				}
+				te := &logical.TokenEntry{Path: "test", Policies: []string{"default"}, EntityID: entID, TTL: time.Hour, NamespaceID: kid.ns.ID}
+				testMakeTokenDirectly(t, w.ctx(kid), tc.c.tokenStore, te)
+				var rm *c12Mount
+				for _, m := range w.mounts {
+					if m.ns.path == "" && m.path != "deep/x/" {
+						rm = m
+					}
+				}
+				if rm == nil {
+					rt.Skip("no mount left in the root namespace")
+				}
+				callsBefore := len(w.hub.handlerCalls())
+				res := tc.doCtx(tc.ctx, &logical.Request{Operation: logical.ReadOperation, Path: rm.path + "raw", ClientToken: te.ID, Data: map[string]any{"key": "k"}})
+				served := res.ok() || len(w.hub.handlerCalls()) > callsBefore
+				w.logf("token of an entity of %q that is member of a root-namespace group with policy all, used in the root namespace -> %v", kid.path, res)
+				crossNS++
+				nontrivial = true
+				if served {
+					fail("ancestor-group-policy-applied-to-descendant-token", fmt.Sprintf("a token of namespace %q whose entity is a member of a root-namespace group carrying the policy 'all' was served in the root namespace (%v): with the default group-policy application mode a token authorises requests only in its own namespace and below", kid.path, res))
+				}
 			},
 			// sys/remount called inside a namespace by that namespace's own administrator token, with a destination given
 			// in the request body that names the same namespace, a descendant, or - climbing with '..' / './..' or with an
